@@ -71,6 +71,14 @@ func (cache *CachedConverter) Reset() error {
 	return cache.cacheFile.Reset()
 }
 
+// Remove stops the converter processes and deletes the cache file.
+func (cache *CachedConverter) Remove() error {
+	// Stop all converter processes.
+	cache.converter.Reset()
+
+	return cache.cacheFile.Remove()
+}
+
 func (cache *CachedConverter) Contains(streamID uint64) bool {
 	return cache.cacheFile.Contains(streamID)
 }
